@@ -65,6 +65,7 @@ template<class V> static void run(const VpCase* c, VpOutcome* o) {
     if (any_minm1) { o->classes |= 1u << CL_MINM1_NEIGHBOUR; std::snprintf(o->tag, sizeof o->tag, "trap-ok"); }
     if (nt) o->nontrivial = 1; else o->classes |= 1u << CL_ORDINARY;
     V a = mk<V>(x), b = mk<V>(y);
+    poison_below(x[0] ^ y[0]);
     switch (c->op) {
     case OP_DIV: { auto r = avel::div(a, b); rd<V>(r.quot, gq); rd<V>(r.rem, gr); break; }
     case OP_QUOT: rd<V>(a / b, gq); break;
